@@ -22,6 +22,8 @@ def run(check):
     check.run_rule('C12.R2', lambda c: rule_call_table(c, 'C12.R2'))
     check.run_rule('C12.R3', lambda c: rule_forms(c, 'C12.R3'))
     from ..rules_modifiers import rule_descriptor_cache
+    from ..rules_derived import rule_partial_targets_pure
+    check.run_rule('C12.R3p', lambda c: rule_partial_targets_pure(c, 'C12.R3', ('modifiers',)))
     check.run_rule('C12.R4', lambda c: rule_descriptor_cache(c, 'C12.R4', None))
     from ..rules_modifiers import rule_cache_per_descriptor
     check.run_rule('C12.R4b', lambda c: rule_cache_per_descriptor(c, 'C12.R4'))
